@@ -95,6 +95,8 @@ type VC struct {
 	assertSeen map[string]bool
 	assSyms    map[int]map[string]bool
 	assDef     map[int]string
+	tags       map[string]int
+	trigStack  [][]string
 	ncell      int
 	freshHeaps map[string]bool // heaps that may hold memory allocated by the function under proof
 	funcGlobals map[*ssa.Global]*ssa.Function
@@ -168,11 +170,26 @@ func (vc *VC) assume(t Term) {
 	if vc.assertSeen == nil {
 		vc.assertSeen = map[string]bool{}
 	}
-	if vc.assertSeen[t.S] {
-		return
+	// conjunctions are split so that relevance slicing can drop the irrelevant conjuncts;
+	// guarded conjunctions (=> g (and ...)) are split as well
+	guard := ""
+	body := t
+	if strings.HasPrefix(t.S, "(=> ") {
+		if parts := splitArgs(t.S); len(parts) == 3 && strings.HasPrefix(parts[2], "(and ") {
+			guard, body = parts[1], Term{parts[2], SBool}
+		}
 	}
-	vc.assertSeen[t.S] = true
-	vc.asserts = append(vc.asserts, t.S)
+	for _, c := range splitConj(body) {
+		s := c.S
+		if guard != "" {
+			s = "(=> " + guard + " " + s + ")"
+		}
+		if vc.assertSeen[s] {
+			continue
+		}
+		vc.assertSeen[s] = true
+		vc.asserts = append(vc.asserts, s)
+	}
 }
 
 // name gives a large term a name to keep the VC linear in size.
@@ -503,6 +520,28 @@ func (vc *VC) markFresh(t types.Type) {
 	}
 }
 
+// typeTag numbers element types: the backing array of a slice of T has the path root (PT tag(T)),
+// so that elements of slices of different element types can never alias.
+func (vc *VC) typeTag(t types.Type) int {
+	if vc.tags == nil {
+		vc.tags = map[string]int{}
+	}
+	k := typeName(vc.rt(t), vc.S.qual)
+	if n, ok := vc.tags[k]; ok {
+		return n
+	}
+	n := len(vc.tags) + 1
+	vc.tags[k] = n
+	return n
+}
+
+func (vc *VC) newAllocSlice(st *State, elem types.Type) Term {
+	p := vc.newAlloc(st, false)
+	n := st.nalloc
+	_ = p
+	return Term{fmt.Sprintf("(mkptr %s (PE (PT %d) (_ bv0 64)))", n.S, vc.typeTag(elem)), SPtr}
+}
+
 func (vc *VC) newAlloc(st *State, slice bool) Term {
 	n := app(SInt, "+", st.nalloc, Term{"1", SInt})
 	if vc.qdepth == 0 {
@@ -668,7 +707,13 @@ func (vc *VC) assumeWF(st *State, v Term, t types.Type) {
 	}
 	switch v.Sort {
 	case SSlice:
-		vc.assume(Term{fmt.Sprintf("(and (bvule (slen %[1]s) (scap %[1]s)) (bvule (scap %[1]s) #x0000010000000000) (<= (alloc (sptr %[1]s)) %[2]s) (>= (alloc (sptr %[1]s)) 0) (=> (= (alloc (sptr %[1]s)) 0) (= %[1]s nilslice)) (=> (> (alloc (sptr %[1]s)) 0) ((_ is PE) (path (sptr %[1]s)))))", v.S, st.nalloc.S), SBool})
+		tagc := "true"
+		if t != nil {
+			if sl, ok := vc.rt(t).Underlying().(*types.Slice); ok {
+				tagc = fmt.Sprintf("(= (pe_p (path (sptr %s))) (PT %d))", v.S, vc.typeTag(sl.Elem()))
+			}
+		}
+		vc.assume(Term{fmt.Sprintf("(and (bvule (slen %[1]s) (scap %[1]s)) (bvule (scap %[1]s) #x0000010000000000) (<= (alloc (sptr %[1]s)) %[2]s) (>= (alloc (sptr %[1]s)) 0) (=> (= (alloc (sptr %[1]s)) 0) (= %[1]s nilslice)) (=> (> (alloc (sptr %[1]s)) 0) (and ((_ is PE) (path (sptr %[1]s))) %[3]s)))", v.S, st.nalloc.S, tagc), SBool})
 	case SPtr:
 		vc.assume(Term{fmt.Sprintf("(and (<= (alloc %[1]s) %[2]s) (=> (= (alloc %[1]s) 0) (= %[1]s nilptr)))", v.S, st.nalloc.S), SBool})
 	}
